@@ -59,11 +59,34 @@ def _generative_names(ctx) -> Set[str]:
     return out
 
 
+def _drops_on_copy(dec: str) -> bool:
+    """Memoisation decorators that register the key in `_memoized_keys`, which _generate()/_clone() skip
+    (HasMemoized.memoized_attribute / HasMemoized.memoized_instancemethod and the typing alias
+    HasMemoized_ro_memoized_attribute; the registration itself is verified by C03-R2).  Plain
+    `util.memoized_property` / `util.ro_memoized_property` / `util.memoized_instancemethod` store into __dict__
+    without registering: such a value SURVIVES the shallow copy and is shared by original and copy."""
+    last = dec.split(".")[-1]
+    return dec.startswith("HasMemoized.") and last in ("memoized_attribute", "memoized_instancemethod") \
+        or last == "HasMemoized_ro_memoized_attribute"
+
+
 def _memoized_attr_names(ctx) -> Set[str]:
+    """Attribute names whose memoised value is dropped by every shallow copy -- under *every* definition of
+    that name (a name that is memoised in a surviving way anywhere is not in the set)."""
+    drop, survive = set(), set()
+    for f in ctx.index.all_functions():
+        for d in f.decorators:
+            if "memoized" in d and "non_memoized" not in d:
+                (drop if _drops_on_copy(d) else survive).add(f.name)
+    return drop - survive
+
+
+def _surviving_memo_names(ctx) -> Set[str]:
     out = set()
     for f in ctx.index.all_functions():
-        if any("memoized" in d for d in f.decorators):
-            out.add(f.name)
+        for d in f.decorators:
+            if "memoized" in d and "non_memoized" not in d and not _drops_on_copy(d):
+                out.add(f.name)
     return out
 
 
@@ -196,8 +219,59 @@ def _is_options_class(ctx, c: ClassInfo) -> bool:
     return any(k.name == "Options" and k.module.relpath == "sql/base.py" for k in ctx.index.mro(c))
 
 
+def _copy_internals_bindings(ctx, k: ClassInfo, attr: str):
+    """Values bound to `attr` by HasCopyInternals._copy_internals(): for a row (attr, InternalTraversal.dp_X) of
+    the class's own _traverse_internals the result of _CopyInternalsTraversal.visit_X(...) is setattr()ed on the
+    clone (cloned_traverse / replacement_traverse / _deep_annotate).  Returns [(owner class, returned expr)]."""
+    from ..evalx import Evaluator, Sym
+    if "_traverse_internals" not in k.assigns:
+        return []
+    store = ctx.__dict__.setdefault("_c03_cache", {})  # per analysis run (a self-test mutant gets a new Ctx)
+    if "ev" not in store:
+        store["ev"] = Evaluator(ctx.index, symbolic_classes={"InternalTraversal"})
+    ev = store["ev"]
+    cache = store.setdefault("rows", {})
+    if k.key not in cache:
+        try:
+            cache[k.key] = ev.eval(k.assigns["_traverse_internals"][-1], k.module, k)
+        except Exception:
+            cache[k.key] = None
+    rows = cache[k.key]
+    if not isinstance(rows, (list, tuple)):
+        return []
+    cit = ctx.index.cls("sql/traversals.py::_CopyInternalsTraversal")
+    # an overriding _copy_internals that delegates with omit_attrs=(..., attr, ...) binds attr itself
+    # (its own `self.attr = ...` statements are collected by _attr_bindings)
+    ci = ctx.index.resolve_method(k, "_copy_internals")
+    if ci is not None:
+        delegations = [c for c in calls_in(ci.node) if (call_name(c) or "").endswith("._copy_internals")]
+        omitted = [any(kw.arg == "omit_attrs" and isinstance(kw.value, (ast.Tuple, ast.List))
+                       and any(isinstance(e, ast.Constant) and e.value == attr for e in kw.value.elts) for kw in c.keywords)
+                   for c in delegations]
+        if delegations and all(omitted):
+            return []
+    out = []
+    for row in rows:
+        if isinstance(row, tuple) and len(row) >= 2 and row[0] == attr and isinstance(row[1], Sym) and row[1].short.startswith("dp_"):
+            m = ctx.index.resolve_method(cit, "visit_" + row[1].short[3:])
+            hops = 0
+            while m is not None and hops < 3:
+                hops += 1
+                nxt = None
+                for r in returns_of(m.node):
+                    v = r.value
+                    if isinstance(v, ast.Call) and isinstance(v.func, ast.Attribute) and isinstance(v.func.value, ast.Name) \
+                            and v.func.value.id == "self" and v.func.attr.startswith("visit_"):
+                        nxt = ctx.index.resolve_method(cit, v.func.attr)
+                    elif v is not None:
+                        out.append((cit, v))
+                m = nxt
+    return out
+
+
 def _attr_bindings(ctx, cls: ClassInfo, attr: str):
-    """All expressions bound to `attr` at class level or as `self.attr = expr` in the class family."""
+    """All expressions bound to `attr` at class level, as `self.attr = expr` in the class family, or by the
+    copy-internals traversal of the family's _traverse_internals."""
     out = []
     fam = set(ctx.index.mro(cls)) | set(ctx.index.subclasses(cls))
     for k in ctx.index.mro(cls):
@@ -205,6 +279,7 @@ def _attr_bindings(ctx, cls: ClassInfo, attr: str):
     for k in fam:
         for v in k.assigns.get(attr, []):
             out.append((k, v))
+        out.extend(_copy_internals_bindings(ctx, k, attr))
         for m in k.methods.values():
             for st in walk_stmts(m.node.body):
                 if isinstance(st, ast.Assign):
@@ -214,12 +289,127 @@ def _attr_bindings(ctx, cls: ClassInfo, attr: str):
     return out
 
 
+def _self_root_attr(e: ast.AST):
+    """('self.attr', exact) for an expression `self.attr`, `self.attr[k]`, `self.attr.x[k]...`; None otherwise.
+    exact = the expression is the attribute itself (not an element / sub-object of it)."""
+    exact = True
+    while True:
+        if isinstance(e, ast.Attribute) and isinstance(e.value, ast.Name) and e.value.id == "self":
+            return "self." + e.attr, exact
+        if isinstance(e, ast.Subscript):
+            e, exact = e.value, False
+        elif isinstance(e, ast.Attribute):
+            e, exact = e.value, False
+        else:
+            return None
+
+
+def _alias_sinks(an: FreshAnalysis, fn: ast.AST):
+    """In-place mutations through a local alias of (an element of) `self.attr`:
+           d = self.attr[k]; d[x] = v     /     lst = self.attr; lst.append(v)
+    Only names bound exactly once, by such an expression.  Yields (cfg node id, 'self.attr', state, ast node)."""
+    from ..astutil import MUTATING_METHODS
+    binds: Dict[str, List] = {}
+    for n, v, st in name_stores(fn):
+        binds.setdefault(n, []).append((v, st))
+    alias = {}
+    for n, lst in binds.items():
+        if len(lst) == 1 and lst[0][0] is not None:
+            r = _self_root_attr(lst[0][0])
+            if r is not None:
+                alias[n] = (r[0], r[1], lst[0][1])
+    if not alias:
+        return
+    for node in an.cfg.nodes:
+        st = node.stmt
+        if st is None or not isinstance(st, ast.stmt) or node.kind not in ("stmt", "test", "for", "with_enter"):
+            continue
+        hits = []
+        if node.kind == "stmt":
+            tgts = list(st.targets) if isinstance(st, (ast.Assign, ast.Delete)) else \
+                [st.target] if isinstance(st, (ast.AugAssign, ast.AnnAssign)) else []
+            for t in tgts:
+                for e in ast.walk(t):
+                    if isinstance(e, ast.Subscript) and isinstance(e.value, ast.Name) and e.value.id in alias \
+                            and isinstance(e.ctx, (ast.Store, ast.Del)):
+                        hits.append((e.value.id, st))
+        from ..astutil import own_exprs
+        for part in own_exprs(st):
+            for c in ast.walk(part):
+                if isinstance(c, ast.Call) and isinstance(c.func, ast.Attribute) and c.func.attr in MUTATING_METHODS \
+                        and isinstance(c.func.value, ast.Name) and c.func.value.id in alias:
+                    hits.append((c.func.value.id, c))
+        for nm, hit in hits:
+            path, exact, bind_stmt = alias[nm]
+            if exact:
+                bn = an.cfg.nodes_for(bind_stmt)
+                state = S
+                if bn:
+                    state = F
+                    for b in bn:
+                        state = join(state, an.state_at(b, path))
+            else:
+                state = S  # an element / sub-object of the attribute: shared even when the attribute was shallow-copied
+            yield node.id, path, state, hit
+
+
+def _helper_mutations(ctx, f: FuncInfo, an: FreshAnalysis, gen_names, depth, seen, chain=()):
+    """In-place mutations of `self.<attr>` performed by non-generative helper methods that the (generative)
+    function `f` invokes as `self.helper(...)`, followed to depth 2.  The helper runs on the same shallow copy:
+    attributes the caller has rebound to a fresh value before the call are fresh in the helper.
+    Yields (path 'self.attr', state, ast node, chain of helper keys, loc)."""
+    if f.cls is None or depth > 2:
+        return
+    from ..astutil import mutating_calls, subscript_stores
+    for node in an.cfg.nodes:
+        st = node.stmt
+        if st is None or not isinstance(st, ast.stmt) or node.kind not in ("stmt", "test", "for", "with_enter"):
+            continue
+        from ..astutil import own_exprs
+        for part in own_exprs(st):
+            for c in ast.walk(part):
+                if not (isinstance(c, ast.Call) and isinstance(c.func, ast.Attribute) and isinstance(c.func.value, ast.Name)
+                        and c.func.value.id == "self"):
+                    continue
+                tgt = ctx.index.resolve_method(f.cls, c.func.attr)
+                if tgt is None or tgt.node is f.node or tgt.key in seen or tgt.type_only:
+                    continue
+                if any(d.split(".")[-1] in ("_generative", "classmethod", "staticmethod") for d in tgt.decorators):
+                    continue
+                # cheap pre-filter: anything that could be an in-place mutation or a further self.helper() call?
+                interesting = bool(mutating_calls(tgt.node)) or bool(subscript_stores(tgt.node)) or any(
+                    isinstance(x, ast.Delete) for x in walk_local(tgt.node)) or any(
+                    isinstance(x, ast.Call) and isinstance(x.func, ast.Attribute) and isinstance(x.func.value, ast.Name)
+                    and x.func.value.id == "self" for x in walk_local(tgt.node))
+                if not interesting:
+                    continue
+                seen = seen | {tgt.key}
+                pre = an.pre.get(node.id, {})
+                entry = {p: S for p in tgt.params}
+                entry.update({k: v for k, v in pre.items() if k.startswith("self.")})
+                entry["self"] = pre.get("self", S)
+                entry["self.__dict__"] = pre.get("self", S)
+                an2 = _analysis(ctx, tgt, gen_names, entry)
+                ctx.functions_analysed.add(tgt.key)
+                ch = chain + (tgt.key,)
+                for nid, kind, root, d, n2 in an2.mutation_sinks():
+                    if root != "self" or kind != "inplace":
+                        continue
+                    path = ".".join(d.split(".")[:2])
+                    state = an2.state_at(nid, path) if path != "self.__dict__" else an2.state_at(nid, "self")
+                    yield path, state, n2, ch, f"{tgt.module.path}:{getattr(n2, 'lineno', tgt.node.lineno)}"
+                for nid, path, state, n2 in _alias_sinks(an2, tgt.node):
+                    yield path, state, n2, ch, f"{tgt.module.path}:{getattr(n2, 'lineno', tgt.node.lineno)}"
+                yield from _helper_mutations(ctx, tgt, an2, gen_names, depth + 1, seen, ch)
+
+
 @R.rule("C03-R1", floor=60, template="T-FRESH",
         desc="@_generative methods / clone-then-modify functions mutate in place only freshly rebound "
              "containers; `self.attr += v` only on attributes holding immutable values")
 def r1(ctx):
     gen_names = _generative_names(ctx)
     memo = _memoized_attr_names(ctx)
+    surviving = _surviving_memo_names(ctx)
     ctx.require(len(gen_names) >= 60, f"only {len(gen_names)} @_generative method names found")
     inplace_gen = ctx.index.cls("sql/base.py::InPlaceGenerative")
     opt = ctx.index.cls("sql/base.py::Options")
@@ -230,6 +420,7 @@ def r1(ctx):
     ctx.check(not stores, addf.key, f"Options.__add__ stores into self ({stores}): `opts += x` would mutate shared options",
               "builds a new Options object", addf.loc)
     n_methods = 0
+    aug_reported: Set[str] = set()
     for f in sorted(ctx.index.all_functions(), key=lambda x: x.key):
         is_gen = any(d.split(".")[-1] == "_generative" for d in f.decorators)
         if not is_gen:
@@ -258,14 +449,40 @@ def r1(ctx):
                 kinds = [(_classify_value(ctx, v, k.module, k), k, v) for k, v in binds]
                 mut = [(k, v) for c, k, v in kinds if c == "mutable"]
                 imm = [1 for c, k, v in kinds if c == "immutable"]
-                if mut:
+                if mut and f"{f.key}:{d}+=" in aug_reported:
+                    pass
+                elif mut:
                     bad = True
+                    aug_reported.add(f"{f.key}:{d}+=")
                     k, v = mut[0]
                     ctx.violation(f"{f.key}:{d}+=",
                                   f"`{unparse(node)[:70]}`: {d} can hold a mutable value (`{unparse(v)[:50]}` in {k.key}); "
                                   f"`+=` then extends the container shared with the original statement", loc)
                 elif not imm:
                     ctx.error(f"{f.key}: cannot classify the value held by {d} (no class-level default or assignment understood)")
+        # in-place mutation through a local alias of self.attr / of one of its elements
+        for nid, path, st, node in _alias_sinks(an, f.node):
+            if st != F:
+                bad = True
+                ctx.violation(f"{f.key}:{path}",
+                              f"in-place mutation `{unparse(node)[:80]}` through a local alias of (an element of) {path}, "
+                              f"which is still shared with the original statement (state {st})",
+                              f"{f.module.path}:{getattr(node, 'lineno', f.node.lineno)}")
+        # ... and inside the non-generative helpers it calls on the copy
+        reported = set()
+        for path, st, node, chain, loc in _helper_mutations(ctx, f, an, gen_names, 1, frozenset({f.key})):
+            if st == F or (path, chain) in reported:
+                continue
+            reported.add((path, chain))
+            bad = True
+            attr = path.split(".", 1)[1]
+            why = (f"{path} is memoised by a decorator that does not register in _memoized_keys, so the value computed "
+                   f"on the original survives _generate() and is the same object on the copy") if attr in surviving else \
+                f"{path} is not rebound to a fresh copy before the call (state {st})"
+            ctx.violation(f"{f.key}:{path}",
+                          f"helper {' -> '.join(k.split('::')[1] for k in chain)}() called on the copy mutates {path} in place "
+                          f"(`{unparse(node)[:70]}`): {why}; the original statement and everything derived from it change",
+                          loc, [f.key] + list(chain))
         if not bad:
             ctx.ok(f.key, "copy-on-write respected")
     ctx.require(n_methods >= 90, f"only {n_methods} @_generative methods analysed")
@@ -301,7 +518,7 @@ def r1(ctx):
             ctx.ok(f.key, "mutates only fresh parts of its clone")
 
 
-@R.rule("C03-R2", floor=4, template="T-FLOW",
+@R.rule("C03-R2", floor=8, template="T-FLOW",
         desc="_generate()/_clone() give the copy its own __dict__; the _generative decorator runs the method "
              "on the copy and returns the copy")
 def r2(ctx):
@@ -319,6 +536,31 @@ def r2(ctx):
                 good = False
         ctx.check(good, key, "the copy's __dict__ is not a fresh copy of self.__dict__ (attribute stores on the copy "
                              "would write through to the original)", "__dict__ copied", f.loc)
+    # memoisations that are meant not to travel with the copy: registered in _memoized_keys by the HasMemoized
+    # decorators, and skipped by both copy functions (R1/R3 rely on this for `memoized_attribute` names)
+    hm = ctx.index.cls("util/langhelpers.py::HasMemoized")
+    ctx.require("memoized_attribute" in hm.nested and "memoized_instancemethod" in hm.methods,
+                "HasMemoized.memoized_attribute / memoized_instancemethod not found")
+    for fn_ in (hm.nested["memoized_attribute"].methods.get("__get__"), hm.methods["memoized_instancemethod"]):
+        ctx.require(fn_ is not None, "HasMemoized.memoized_attribute.__get__ not found")
+        reg = [n for n in ast.walk(fn_.node) if isinstance(n, (ast.AugAssign, ast.Assign))
+               and any((dotted(t) or "").endswith("._memoized_keys") for t in ([n.target] if isinstance(n, ast.AugAssign) else n.targets))]
+        ctx.check(bool(reg), fn_.key + ":registers-key",
+                  "the memoised value is stored in __dict__ without registering its name in _memoized_keys: it would be "
+                  "carried over (shared) by _generate()/_clone()", "registers the key in _memoized_keys", fn_.loc)
+    for key in ("sql/base.py::Generative._generate", "sql/elements.py::ClauseElement._clone"):
+        f = ctx.func(key)
+        comps = [n for n in ast.walk(f.node) if isinstance(n, ast.DictComp)]
+        skipvars = {n_ for n_, v, st in name_stores(f.node) if v is not None and (dotted(v) or "") == "self._memoized_keys"}
+        filtered = any(
+            any(isinstance(t, ast.Compare) and len(t.ops) == 1 and isinstance(t.ops[0], ast.NotIn)
+                and ((isinstance(t.comparators[0], ast.Name) and t.comparators[0].id in skipvars)
+                     or (dotted(t.comparators[0]) or "") == "self._memoized_keys")
+                for gen in c.generators for t in gen.ifs)
+            for c in comps)
+        ctx.check(filtered, key + ":skips-memoized", "the copy keeps the memoised values named in _memoized_keys (computed for "
+                                                     "the original, stale and shared on the copy)",
+                  "memoised keys are not copied", f.loc)
     # decorator
     m = ctx.index.module("sql/base.py")
     outer = ctx.func("sql/base.py::_generative")
